@@ -35,6 +35,9 @@ OptionPoints ==
           ri \in {U, R(T_PIPE, 0, 0, ""), R(T_DISCARD, 0, 0, ""), R(T_PARENT, 0, 0, ""), R(0, HFD, 0, ""), R(0, 0, 0, PATHS)},
           sh \in {NoSh, [NoSh EXCEPT !.parent = TRUE], [NoSh EXCEPT !.discard = TRUE]}, inp \in {-1, -2, 0, 2}}
   \cup {Opt(<<U, U, U>>, NoSh, -1, f, a) : f \in BOOLEAN, a \in BOOLEAN}
+  \* a FILE stream is "given" whatever its descriptor number: also when it sits on descriptor 0
+  \cup {Opt([<<U, U, U>> EXCEPT ![s] = R(t, 0, F0, "")], NoSh, -1, FALSE, TRUE) : s \in 1..3, t \in {T_DEFAULT, T_FILE}}
+  \cup {Opt(<<U, U, U>>, [NoSh EXCEPT !.file = F0], -1, FALSE, TRUE)}
 
 \* C10: every valid combination of explicit types, plus the shorthands and the defaults
 ValidIn == {R(T_PIPE, 0, 0, ""), R(T_PARENT, 0, 0, ""), R(T_DISCARD, 0, 0, ""), R(T_HANDLE, HFD, 0, ""), R(T_FILE, 0, FFD, ""), R(T_PATH, 0, 0, PATHS), U}
@@ -44,6 +47,9 @@ WiringPoints ==
   \cup {Opt(<<U, U, U>>, sh, -1, FALSE, TRUE) : sh \in {[NoSh EXCEPT !.parent = TRUE], [NoSh EXCEPT !.discard = TRUE],
                                                        [NoSh EXCEPT !.file = FFD], [NoSh EXCEPT !.path = PATHS]}}
   \cup {Opt(<<R(T_PIPE, 0, 0, ""), b, c>>, NoSh, 2, FALSE, TRUE) : b \in {U, R(T_PARENT, 0, 0, "")}, c \in {U, R(T_STDOUT, 0, 0, "")}}
+  \* a FILE stream that sits on descriptor 0 (for stdin itself, for another stream, and as the shorthand)
+  \cup {Opt(<<R(T_FILE, 0, F0, ""), U, U>>, NoSh, -1, FALSE, TRUE), Opt(<<R(T_DEFAULT, 0, F0, ""), U, U>>, NoSh, -1, FALSE, TRUE),
+         Opt(<<U, R(T_FILE, 0, F0, ""), U>>, NoSh, -1, FALSE, TRUE), Opt(<<U, U, U>>, [NoSh EXCEPT !.file = F0], -1, FALSE, TRUE)}
   \* user-supplied handles / FILEs that are themselves the parent's descriptors 1 or 2 (crossed over, shared, or next to pipes)
   \cup {Opt(<<a, b, c>>, NoSh, -1, FALSE, TRUE) :
           a \in {U, R(T_DISCARD, 0, 0, "")},
@@ -126,7 +132,7 @@ EMFILE == -24
 Init == phase = "pick" /\ o \in Points /\ k \in {[std |-> s, hasInput |-> FALSE] : s \in StdSets}
 \* a user handle / FILE that names one of the parent's descriptors 1, 2 while that descriptor is closed: an unusable target
 DeadTarget(eff) == \E s \in 1..3 : (eff[s].t = T_HANDLE /\ eff[s].h \in {1, 2} /\ ~k.std[eff[s].h + 1])
-                                     \/ (eff[s].t = T_FILE /\ eff[s].f \in {1, 2} /\ ~k.std[eff[s].f + 1])
+                                     \/ (eff[s].t = T_FILE /\ FdOf(eff[s].f) \in {0, 1, 2} /\ ~k.std[FdOf(eff[s].f) + 1])
 EBADF == -9
 
 RJ(r) == <<r.t, r.h, r.f, r.p>>
